@@ -96,9 +96,14 @@ def table():
 def _team_table():
     """the same harnesses under the second schedule model: a team of T threads, the loop's own schedule kind and chunk size, every
     thread running its chunks one after the other (state left in thread-private variables reaches later iterations)"""
-    from . import c05, c11, c05_sdmx
+    from . import c02, c05, c11, c05_sdmx
     out = {}
     for T in (2, 3):
+        out["cider_coefs_gto_gq/T%d" % T] = (_wrap(c02.h_gto, T, "chunks"), dict(spec="se_erf_rinv", order="gq"), "numint")
+        out["cider_coefs_vk1_qg/T%d" % T] = (_wrap(c02.h_vk1, T, "chunks"), dict(order="qg"), "dft")
+        out["cider_coefs_spline_gq/T%d" % T] = (_wrap(c02.h_spline, T, "chunks"), dict(order="gq"), "dft")
+        out["smooth_cider_exponents/T%d" % T] = (_wrap(c02.h_smooth, T, "chunks"), {}, "dft")
+        out["evaluate_se_kernel_spin_v2/T%d" % T] = (_wrap(c11.h_spin_v2_raw, T, "chunks"), dict(n=2), "kernels")
         out["sdmx_ao_to_bas_l1/T%d" % T] = (_wrap(c05_sdmx.h_l1, T, "chunks"), dict(ng=3), "dft")
         out["sdmx_shl_to_alpha_l1/T%d" % T] = (_wrap(c05_sdmx.h_shl_alpha, T, "chunks"), dict(ng=2, nalpha=3, nsh=2), "dft")
         out["contract_rad_orb_9shells/T%d" % T] = (_wrap(c05.h_rad_orb, T, "chunks"), dict(nalpha=1, stride=2, offset=1, basis="nine_shells"), "dft")
